@@ -123,6 +123,22 @@ class _AbcCoroutine(collections.abc.Coroutine):
         return self._c.__await__()
 
 
+class _CbUnhashable:
+    """A callback object that defines __eq__ and therefore has no __hash__ (like an ordinary eq-dataclass with
+    __call__): callable, but it cannot be a dict key or an lru_cache argument."""
+    __slots__ = ("_fn",)
+    __hash__ = None
+
+    def __init__(self, fn):
+        self._fn = fn
+
+    def __eq__(self, other):
+        return self is other
+
+    def __call__(self, task_id):
+        return self._fn(task_id)
+
+
 def _cb_with_prefix(fn, _bound, task_id):
     return fn(task_id)
 
@@ -928,6 +944,21 @@ class Sim:
                 sim._orphans.append(fut)
                 return fut
             return cbf
+        if kind[-1] == "u":
+            self.stats["probe:unhashable_callback"] += 1
+            return _CbUnhashable(self._make_cb(owner, which, kind[:-1]))
+        if kind[-1] == "d":
+            # the parameter that receives the task id has a default value: the id is passed all the same
+            inner = self._make_cb(owner, which, kind[:-1])
+            self.stats["probe:callback_with_default_parameter"] += 1
+            if kind[0] == "s":
+                def cbd(task_id=-1):
+                    return inner(task_id)
+                return cbd
+
+            async def acbd(task_id=None):
+                return await inner(task_id)
+            return acbd
         if kind[-1] == "k":
             self.stats["probe:marked_object_callback"] += 1
             return _CbMarked(self._make_cb(owner, which, kind[:-1]))
